@@ -379,9 +379,15 @@ Definition step1 (w : world) (o : op) : res (world * list obs) :=
   | OpDSet i d =>
       s <- need_sec el i ;; Ok (mkWorld (upd_sec el i (set_data (xe el) s d)), [])
   | OpDApp i d =>
-      s <- need_sec el i ;; s1 <- append_data junk0 (xe el) s d ;; Ok (mkWorld (upd_sec el i s1), [])
+      s0 <- need_sec el i ;;
+      (* a lazily loaded section is brought into memory first (C07 fix); append = insert at the size before that *)
+      let pos := sh_size s0 in
+      '(el1, _) <- (if negb (sh_type s0 =? SHT_NOBITS) && s_lazy s0 && negb (s_loaded s0) then el_sec_get_data junk0 el i else Ok (el, None)) ;;
+      s <- need_sec el1 i ;; s1 <- insert_data junk0 (xe el1) s pos d ;; Ok (mkWorld (upd_sec el1 i s1), [])
   | OpDIns i pos d =>
-      s <- need_sec el i ;; s1 <- insert_data junk0 (xe el) s pos d ;; Ok (mkWorld (upd_sec el i s1), [])
+      s0 <- need_sec el i ;;
+      '(el1, _) <- (if negb (sh_type s0 =? SHT_NOBITS) && s_lazy s0 && negb (s_loaded s0) then el_sec_get_data junk0 el i else Ok (el, None)) ;;
+      s <- need_sec el1 i ;; s1 <- insert_data junk0 (xe el1) s pos d ;; Ok (mkWorld (upd_sec el1 i s1), [])
   | OpGetData i =>
       match get_sec el i with None => Ok (w, [ObN T_ABSENT [i]]) | Some _ =>
       '(el1, p) <- el_sec_get_data junk0 el i ;;
